@@ -34,5 +34,8 @@ func extraBackend(d *Deployment, id uint16, name string) (tss.KeyGenFactory, tss
 		}
 		return kgf, sf
 	}
+	if name == "eddsa" || name == "ecdsa" {
+		return adapterFactories(d, id, name)
+	}
 	panic("unknown backend " + name)
 }
